@@ -632,9 +632,11 @@ class TestManager:
             self.remove_root()
         except KeyboardInterrupt:
             logging.info('Exiting now ...')
+            self.kill_pid_queue()
             self.remove_root()
             sys.exit(1)
         except Exception:
+            self.kill_pid_queue()
             self.remove_root()
             raise
 
